@@ -7,15 +7,39 @@ import ILV.Drv.StoreRun
 namespace ILV.Drv.C11
 open ILV ILV.Batch ILV.Store ILV.Drv.StoreRun
 
-/-- net number of acknowledged requests (+1 per requested insert, −1 per requested delete) for the
-    tuple with wire form `t` of relation `r` among the first items (those paired with a token). -/
-def netRequests (r t : String) : List (Op × String) → Int
-  | [] => 0
-  | (.ins r' ts, tok) :: rest =>
-    (if r' == r && tok.startsWith "+" then ((ts.filter (fun x => Tuple.toWire x == t)).length : Int) else 0) + netRequests r t rest
-  | (.del r' ts, tok) :: rest =>
-    (if r' == r && tok.startsWith "-" then - ((ts.filter (fun x => Tuple.toWire x == t)).length : Int) else 0) + netRequests r t rest
-  | _ :: rest => netRequests r t rest
+/-- arity recorded for relation `r` in a rendered state (`r:2=…` → `some 2`, `r:-=…` → `none`). -/
+def arityInState (r : String) (st : String) : Option Nat :=
+  match (st.splitOn " ").filterMap (fun (e : String) => match e.splitOn "=" with
+      | nm :: _ => (match nm.splitOn ":" with | [n, a] => if n == r then some a else none | _ => none)
+      | [] => none) with
+  | a :: _ => parseNat a
+  | [] => none
+
+def postOfTok (tok : String) : Option String :=
+  match tok.splitOn " post=" with
+  | [_, post] => if post.startsWith "err:" then none else some post
+  | _ => none
+
+/-- net number of requests that reach the update log (+1 per requested insert, −1 per requested delete)
+    for the tuple with wire form `t` of relation `r`. A delete reaches the log only for tuples of the
+    arity `ar` currently recorded for the relation (none while the relation is unknown); `ar` follows the
+    acknowledged inserts and the arity shown after each restart. -/
+def netRequestsFrom (r t : String) : Option Nat → List (Op × String) → Int
+  | _, [] => 0
+  | ar, (.ins r' ts, tok) :: rest =>
+    if r' == r && tok.startsWith "+" then
+      ((ts.filter (fun x => Tuple.toWire x == t)).length : Int) +
+        netRequestsFrom r t (match ar, ts with | none, x :: _ => some x.length | a, _ => a) rest
+    else netRequestsFrom r t ar rest
+  | ar, (.del r' ts, tok) :: rest =>
+    (if r' == r && tok.startsWith "-" then
+      - (((ts.filter (fun x => some x.length == ar)).filter (fun x => Tuple.toWire x == t)).length : Int) else 0) +
+      netRequestsFrom r t ar rest
+  | ar, (.restart, tok) :: rest | ar, (.shutdown, tok) :: rest =>
+    netRequestsFrom r t (match postOfTok tok with | some post => arityInState r post | none => ar) rest
+  | ar, _ :: rest => netRequestsFrom r t ar rest
+
+def netRequests (r t : String) (seen : List (Op × String)) : Int := netRequestsFrom r t none seen
 
 /-- arities of the tuples named by the *acknowledged* requests on `r` (an acknowledged request
     reached the update log: tokens `+n/d`, `-n`, or an `err:arrow…` raised by the flush after the append). -/
